@@ -231,7 +231,9 @@ where
                     }
                     self.check_constant_value_expression(&child_data.operation)
                 }
-                ast::ConstantValue::Value(_) => true,
+                ast::ConstantValue::Value(_) => {
+                    self.check_constant_value_expression(&child_data.operation)
+                }
             }
         } else {
             true
